@@ -4,7 +4,8 @@
    input by the document-level observer. *)
 From Coq Require Import List NArith Arith Bool String.
 From WMD Require Import Gen.Tables Lib.Str Lib.PyChars Lib.Escape Lib.Difflib Model.RenderTokens Model.RenderMerge
-     Proofs.EscapeProofs Proofs.MergeProofs Proofs.TokenProofs Proofs.AssembleProofs Proofs.RenderProofs.
+     Proofs.EscapeProofs Proofs.MergeProofs Proofs.TokenProofs Proofs.AssembleProofs Proofs.RenderProofs
+     Model.LinksHtml Model.RenderDoc Proofs.RenderDocProofs.
 Import ListNotations.
 Open Scope N_scope.
 
@@ -37,6 +38,25 @@ Proof. intros tag attrs text children tail source H1 H2. cbn [flatten_el]. rewri
 
 Theorem C09_chunks_emitted_verbatim : forall chunks st, srcs (merge_changes_l chunks st) = nonempty_chunks chunks.
 Proof. exact merge_changes_conserves. Qed.
+
+(* the fragment handed to the tokeniser (_diffable_fragment): a text node directly in <body> is
+   written escaped, so it cannot open a tag; every <ins>/<del> of the source is unwrapped at any
+   depth and all text nodes are kept in order *)
+Theorem C09_body_text_escaped : forall s rest,
+  diffable_fragment (SText s :: rest) = html_escape false s ++ diffable_fragment rest /\ ~ In 60 (html_escape false s).
+Proof. exact fragment_body_text_escaped. Qed.
+
+Theorem C09_source_markers_unwrapped : forall n, forallb (fun m => negb (has_insdel m)) (unwrap_insdel n) = true.
+Proof. exact unwrap_removes_insdel. Qed.
+
+Theorem C09_unwrapping_keeps_text : forall n, flat_map texts (unwrap_insdel n) = texts n.
+Proof. exact unwrap_keeps_texts. Qed.
+
+(* deleted scripts and styles are inert in the combined view *)
+Theorem C09_deleted_active_elements_inert : forall old new ops ic dc body,
+  let v := view_doc KCombined old new ops ic dc body in
+  forallb (inert_ok false false) (d_body v) = true /\ forallb (inert_ok false false) (d_head v) = true.
+Proof. exact combined_view_inert. Qed.
 
 Theorem C09_tables :
   forallb (fun n => mem_str (s2l n) Tables.undiffable_content_tags) ["script"; "style"; "svg"; "template"; "textarea"; "select"]%string = true /\
